@@ -1038,9 +1038,12 @@ class Node:
         """Notes the end-to-end identifier of an answer, for retransmit checks."""
         message_id = (f"{message.header.hop_by_hop_identifier}:"
                       f"{message.header.end_to_end_identifier}")
-        if message_id not in self._origin_waiting_answer:
+        # several connection threads may record an answer with the same ids
+        # at the same time, only one of them gets the entry
+        waiting = self._origin_waiting_answer.pop(message_id, None)
+        if waiting is None:
             return
-        origin_host, recv_time = self._origin_waiting_answer[message_id]
+        origin_host, recv_time = waiting
         process_time = time.time() - recv_time
 
         if origin_host not in self._sent_answers:
@@ -1048,8 +1051,6 @@ class Node:
                 maxlen=self.retransmit_queue_size)
         
         self._sent_answers[origin_host].append(message.header.end_to_end_identifier)
-
-        del self._origin_waiting_answer[message_id]
 
         peer = self._find_connection_peer(conn)
         if peer:
